@@ -192,6 +192,27 @@ def _c18_tasks(tier, seed):
     return out
 
 
+def _c19_tasks(tier, seed):
+    out = []
+    n_units, n_hist = (6, 5) if tier == "quick" else (40, 12)
+    for i in range(n_units):
+        out.append(("unit_c19", (seed * 1019 + i, i % 2 == 0, n_hist)))
+        out.append(("unit_c19_model", (seed * 1019 + i, i % 2 == 0)))
+    return out
+
+
+SPECIAL["c19"] = _c19_tasks
+PROPS["C19"] = dict(
+    suites=[dict(unit="c19", special="c19")],
+    rule="a pool of 28 values of diverse types (built-ins, str/dict/list/tuple subclasses, UserDict/UserList/OrderedDict, user-defined Mapping and Sequence classes, "
+         "classes that are both or neither, namedtuple, range, bytes, values with a dotted key / a non-JSON leaf at depth) - plus 8 numpy values (0-d/1-d/2-d ndarray, 0-d/1-d "
+         "instances of an ndarray SUBCLASS, scalars) when the numpy stand-in is installed - is fed in seeded random orders (histories of 1-6 values) through all four "
+         "validators and six collection entry points of a fresh interpreter; then 12 probes per pool value (validators, is_base_type, setitem/append/update/reset with the "
+         "stored form and the child class) are executed in shuffled order and compared with a fresh interpreter without history; model correspondence: a fresh copy of each "
+         "of the 7 module-level resolvers is run over a 14-value history and its answers compared with SC/Resolver.lean runHistory",
+    assumptions=["isinstance(obj, ABC) depends only on type(obj) and the ABC registrations in force (registering a class with an ABC after a resolver has seen it is outside the claim)",
+                 "numpy is absent in this sandbox: the numpy-dependent predicates are exercised with a stand-in module (ndarray with ndim/tolist/item, a subclass, number, bool_, iscomplexobj)",
+                 "the AST classification of resolver predicates by harness/extract.py (isinstance-only vs numpy helpers) is trusted"])
 SPECIAL["c18"] = _c18_tasks
 PROPS["C18"] = dict(
     suites=[("unit_seq_corr", ["single", "ext"], 30, 500, 28), dict(unit="c18", special="c18")],
@@ -422,6 +443,18 @@ def replay(prop, path):
         if not bad:
             print("replay: no violation of %s on the current tree" % prop)
         return 1 if bad else 0
+    if payload.get("kind") == "c19":
+        import c19
+        ex = payload["extra"]
+        base = c19.run_child(dict(numpy=ex["numpy"], repo=env.REPO, history=[], probes=ex["probes"] and sorted(ex["probes"])))
+        got = c19.run_child(dict(numpy=ex["numpy"], repo=env.REPO, history=ex["history"], probes=ex["probes"]))
+        a, b = base.get(ex["value"], {}).get(ex["probe"]), got.get(ex["value"], {}).get(ex["probe"])
+        if a != b:
+            print("VIOLATION property=%s replay=%s" % (prop, path))
+            print("  %s on %s: fresh %r, after %s: %r" % (ex["probe"], ex["value"], a, ex["history"], b))
+            return 1
+        print("replay: no violation of %s on the current tree" % prop)
+        return 0
     if payload.get("kind") == "c18":
         import c18
         ex = payload["extra"]
